@@ -3,7 +3,8 @@
    assigning a raw one, deallocating an unknown or already released block, with the wrong size or through an unequal
    allocator, or with elements still alive, all return Err).  This file holds only the property theorems, each closed by
    `exact`, with Print Assumptions. *)
-From BM Require Import Base.Tactics Model.Life Proofs.LifeMonad Proofs.LifeInv Proofs.LifeOps Proofs.LifeMain Proofs.LifeFacts.
+From BM Require Import Base.Tactics Model.Life Proofs.LifeMonad Proofs.LifeInv Proofs.LifeOps Proofs.LifeMain Proofs.LifeFacts
+  Proofs.LifeVal4 Proofs.LifeVal10.
 Local Open Scope Z_scope.
 
 (* Every fault-free history of array.hpp entry points in its documented domain runs without a single illegal
@@ -19,13 +20,25 @@ Print Assumptions C08_lifetime_invariant.
 
 Theorem C08_balanced_at_end :
   forall cfg, (1 <= c_rank cfg)%nat -> forall s, Good cfg s -> (forall r, (r < NP)%nat -> get_slot s r = None) ->
-    live_blocks s = [] /\ (c_trivial cfg = false -> alive_cells s = 0).
+    live_blocks s = [] /\ (c_tdtor cfg = false -> alive_cells s = 0).
 Proof. exact balanced_at_end. Qed.
 Print Assumptions C08_balanced_at_end.
 
 Theorem C08_trivial_not_written :
-  forall cfg, (1 <= c_rank cfg)%nat -> forall r a x s s', c_trivial cfg = true -> step cfg (OCtorSized r a x) s = Ok tt s' ->
+  forall cfg, (1 <= c_rank cfg)%nat -> forall r a x s s', c_tdc cfg = true -> step cfg (OCtorSized r a x) s = Ok tt s' ->
     exists a', get_slot s' r = Some a' /\
       (0 < bnumel x -> exists b blk, a_base a' = PBlk b /\ get_blk s' b = Some blk /\ b_cells blk = repeat Raw (Z.to_nat (bnumel x))).
 Proof. exact sized_ctor_trivial_not_written. Qed.
 Print Assumptions C08_trivial_not_written.
+
+(* reextent(x) without a fill value does not write the new elements of ANY trivially default constructible element type
+   (c_tdc; nothing is assumed about the copy operations: also a type that is not std::is_trivial): they still read the
+   allocator's paint *)
+Theorem C08_reextent_trivial_not_written :
+  forall cfg, (1 <= c_rank cfg)%nat -> forall r x s s' idx, c_tdc cfg = true -> Good cfg s -> pool_ok cfg (abs_state s) ->
+    dom_op cfg (s_arrs s) (OReextent r x None) -> val_dom cfg (OReextent r x None) ->
+    step cfg (OReextent r x None) s = Ok tt s' -> bx_eq x (fst (vget (abs_state s) r)) = false ->
+    in_bx (norm_bx x) idx = true -> in_bx (fst (vget (abs_state s) r)) idx = false ->
+    nth (Z.to_nat (rowmajor (norm_bx x) idx)) (snd (vget (abs_state s') r)) pat = pat.
+Proof. exact reextent_new_not_written. Qed.
+Print Assumptions C08_reextent_trivial_not_written.
